@@ -25,8 +25,6 @@ static void touch(int huge, u8* bin, u8* mask, u32 idx, int kind, u64 delta, u8*
   VP_ASSERT(nt < MAXT, "more cache-bin operations than the step can cause");
   if (nt < MAXT) { t_huge[nt] = huge; t_idx[nt] = idx; t_kind[nt] = kind; t_delta[nt] = delta; t_arg[nt] = arg; nt++; }
 }
-#define LARGE_BIN struct S_class_rml__internal__LargeObjectCacheImpl_1__CacheBin
-/* names of the generated struct types differ per instantiation: use u8* via casts in the stubs (prototypes come from w.h) */
 #include "h_loc_stubs.h"
 u8 _ZN3rml8internalL16doInitializationEv(void) { return 1; }
 void _ZN3rml8internal7Backend17returnLargeObjectEPNS0_16LargeMemoryBlockE(struct S_class_rml__internal__Backend* b, lmb_t* l) { VP_ASSERT(n_ret < 2, "block returned to the backend twice"); if (n_ret < 2) ret_blk[n_ret++] = (u8*)l; }
